@@ -234,6 +234,16 @@ fn random_font(r: &mut StdRng, name: String, height: u8) -> BitFont {
 
 fn random_palette(r: &mut StdRng, n: usize) -> Palette {
     let mut p = Palette::new();
+    // structured classes: the palette is (a prefix of) / starts with a well-known table - the writer and the reader treat
+    // "the default palette" specially, so near-default palettes are their own input class
+    let class = r.gen_range(0..8);
+    if class < 3 {
+        let base = match class { 0 => Palette::dos_default(), 1 => Palette::from_slice(&icy_engine::XTERM_256_PALETTE.iter().map(|(_, c)| c.clone()).collect::<Vec<Color>>()), _ => Palette::from_slice(&icy_engine::C64_DEFAULT_PALETTE) };
+        for i in 0..n {
+            if i < base.len() { p.push(base.get_color(i as u32)); } else { p.push(Color::new(r.gen(), r.gen(), r.gen())); }
+        }
+        return p;
+    }
     for i in 0..n {
         let c = match r.gen_range(0..4) { 0 => Color::new(r.gen(), r.gen(), r.gen()), 1 => Color::new((i % 256) as u8, (i / 2 % 256) as u8, 255 - (i % 256) as u8), 2 => Color::new(r.gen_range(0..4), 0, 255), _ => Color::new(r.gen(), r.gen(), r.gen()) };
         p.push(c);
@@ -425,7 +435,7 @@ pub fn c07(a: &Args) {
         for (di, group) in idx.chunks(6).enumerate() {
             let pages = vec![0usize, 300];
             let size = (r.gen_range(1..=12), r.gen_range(1..=6));
-            let pal_len = if di % 3 == 0 { 16 } else { r.gen_range(1..=300) };
+            let pal_len = if di % 3 == 0 { 16 } else if di % 3 == 1 { r.gen_range(1..=20) } else { r.gen_range(1..=300) };
             let f0 = if di % 4 == 0 { 16 } else { r.gen_range(1..=8) };
             let (mut buf, env) = new_doc(&mut r, size, pal_len, &pages, f0, true);
             for gi in group {
@@ -456,7 +466,7 @@ pub fn c07(a: &Args) {
             let big = thorough && d % 7 == 0;
             let (max_w, max_h) = if big { (200, 120) } else if thorough && d % 3 == 0 { (80, 50) } else { (40, 20) };
             let pages = random_pages(&mut r);
-            let pal_len = match r.gen_range(0..6) { 0 => 16, 1 => 1, 2 => 300, 3 => r.gen_range(257..=300), _ => r.gen_range(1..=300) };
+            let pal_len = match r.gen_range(0..7) { 0 => 16, 1 => 1, 2 => 300, 3 => r.gen_range(257..=300), 4 => r.gen_range(2..=17), _ => r.gen_range(1..=300) };
             let size = (r.gen_range(1..=max_w), r.gen_range(1..=max_h));
             let f0 = [16u8, 16, 8, 14, 4][r.gen_range(0..5)];
             let small = !big && r.gen_bool(0.6);
